@@ -52,13 +52,12 @@ caught = {}
 lr = os.path.join(root, 'selftest', 'last_run.txt')
 if os.path.exists(lr):
     for l in open(lr):
-        m = re.match(r'(CAUGHT|MISSED) (C\d+)[: ]*(.*)', l)
+        m = re.match(r'(CAUGHT|MISSED) (C\d+(?:-r2)?)[: ]*(.*)', l)
         if m:
             caught[m.group(2)] = (m.group(1), m.group(3).strip())
 rows = ["| property | seeded change (files) | needs | reported by |", "|---|---|---|---|"]
-for p in props:
-    pid = p['id']
-    mp = os.path.join(root, 'seeded', pid, 'meta.json')
+for sid in sorted(os.listdir(os.path.join(root, 'seeded'))):
+    mp = os.path.join(root, 'seeded', sid, 'meta.json')
     if not os.path.exists(mp):
         continue
     m = json.load(open(mp))
@@ -66,9 +65,9 @@ for p in props:
     summ = summ[:230] + ('…' if len(summ) > 230 else '')
     need = re.sub(r'\s+', ' ', m.get('needs_to_manifest', ''))
     need = need[:150] + ('…' if len(need) > 150 else '')
-    st, obs = caught.get(pid, ('?', ''))
+    st, obs = caught.get(sid, ('?', ''))
     obl = ' '.join(obs.split()[:2])
-    rows.append(f"| {pid} | {summ} (`{', '.join(m.get('files_changed', []))}`) | {need} | {st.lower()}: `{obl}` |")
+    rows.append(f"| {sid} | {summ} (`{', '.join(m.get('files_changed', []))}`) | {need} | {st.lower()}: `{obl}` |")
 text = block(text, 'SEEDS', '\n'.join(rows))
 open(os.path.join(root, 'DESIGN.md'), 'w').write(text)
 print('DESIGN.md blocks regenerated')
